@@ -399,7 +399,7 @@ def builder_run(seed, num, depth=160, consts=None):
 def builder_descs(tier, seed, backend="rust", n=None):
     """descriptions written by the builder machine that the specification accepts and places inside the
     backend's supported class; quick: a fixed batch, thorough: a larger one plus a batch drawn from VERIF_SEED"""
-    n = n or int(os.environ.get("VERIF_NGEN", "64" if tier == "quick" else "600"))
+    n = n or int(os.environ.get("VERIF_NGEN", "64" if tier == "quick" else "240"))
     if n <= 0:
         return []
     recs = builder_run(BUILD_SEED, n)
@@ -1556,7 +1556,7 @@ def check_c17(ctx):
     rep.notes["value_pairs"] = len(pairs)
     # ---- the same law for the Python and C++ serializers ("for each backend"): kit descriptions plus the builder's
     # clean C++ batch (the unit list of C14, so that the sanitizer drivers are shared)
-    units2 = make_units(kit.build(ctx.tier) + builder_descs(ctx.tier, ctx.seed, 'cxxclean', n=96 if ctx.tier == 'quick' else 800))
+    units2 = make_units(kit.build(ctx.tier) + builder_descs(ctx.tier, ctx.seed, 'cxxclean', n=96 if ctx.tier == 'quick' else 400))
     compile_units(ctx.driver(), units2, ["analyze", "python", "cxx"])
     jobs = []
     for k, u in enumerate(units2):
@@ -1648,7 +1648,7 @@ def run_py(reqs, tag="py"):
 
 def check_c13(ctx):
     rep = Report("C13", ctx.tier, ctx.seed)
-    units = make_units(kit.build(ctx.tier) + builder_descs(ctx.tier, ctx.seed, 'pyclean', n=64 if ctx.tier == 'quick' else 600))
+    units = make_units(kit.build(ctx.tier) + builder_descs(ctx.tier, ctx.seed, 'pyclean', n=64 if ctx.tier == 'quick' else 300))
     compile_units(ctx.driver(), units, ["analyze", "python"])
     mods = prepare_python(ctx, units)
     jobs = []
@@ -1834,7 +1834,7 @@ def run_cxx(bins, reqs, tag="cxx"):
 
 def check_c14(ctx):
     rep = Report("C14", ctx.tier, ctx.seed)
-    units = make_units(kit.build(ctx.tier) + builder_descs(ctx.tier, ctx.seed, 'cxxclean', n=96 if ctx.tier == 'quick' else 800))
+    units = make_units(kit.build(ctx.tier) + builder_descs(ctx.tier, ctx.seed, 'cxxclean', n=96 if ctx.tier == 'quick' else 400))
     compile_units(ctx.driver(), units, ["analyze", "cxx"])
     jobs = []
     for k, u in enumerate(units):
@@ -2062,7 +2062,7 @@ def run_java(cls, reqs, tag="java"):
 
 def check_c19(ctx):
     rep = Report("C19", ctx.tier, ctx.seed)
-    units = make_units(kit.build(ctx.tier) + builder_descs(ctx.tier, ctx.seed, 'javaclean', n=256 if ctx.tier == 'quick' else 2000))
+    units = make_units(kit.build(ctx.tier) + builder_descs(ctx.tier, ctx.seed, 'javaclean', n=256 if ctx.tier == 'quick' else 1200))
     compile_units(ctx.driver(), units, ["analyze"])
     jobs = []
     for k, u in enumerate(units):
